@@ -66,7 +66,9 @@ def construct(case):
         c = [complex(x[0], x[1]) for x in case['coeff']]
         if all(z.imag == 0 for z in c) and case.get('real_coeff'):
             c = [z.real for z in c]
-        return ptn.linear_fermionic_mpo(c, case['ftype'])
+        k = len(c) % 3
+        carg = c if k == 0 else (tuple(c) if k == 1 else np.array(c))
+        return ptn.linear_fermionic_mpo(carg, case['ftype'])
     raise ValueError(m)
 
 
